@@ -50,7 +50,10 @@ class FixedScalar(Symbol):
 
     @property
     def expr(self):
-        return repr(self.value)
+        # NumPy scalars and 0-d arrays have reprs like 'np.float64(0.5)' that
+        # cannot be evaluated when the expression is parsed again.
+        value = self.value.item() if hasattr(self.value, "item") else self.value
+        return repr(value)
 
     @property
     def _expr_tree(self):
